@@ -5,6 +5,8 @@ import (
 	"encoding/json"
 	"fmt"
 	"net"
+	"net/http"
+	"sort"
 	"strings"
 	"sync"
 	"sync/atomic"
@@ -20,18 +22,47 @@ import (
 // peer the rules do not admit (or a call without credentials on a route with auth=) never reaches the upstream.
 
 type grpcIn struct {
-	Allow  string `json:"allow"`
-	Deny   string `json:"deny"`
-	Scheme string `json:"scheme"`
+	Allow      string     `json:"allow"`
+	Deny       string     `json:"deny"`
+	Scheme     string     `json:"scheme"`
+	Registered []string   `json:"registered"`
+	Secrets    [][]string `json:"secrets"`
+	Cred       credIn     `json:"cred"`
 }
 
 var (
-	grpcOnce  sync.Once
-	grpcErr   error
-	grpcHits  atomic.Int64
-	grpcUp    string
-	grpcFront string
+	grpcOnce   sync.Once
+	grpcErr    error
+	grpcHits   atomic.Int64
+	grpcUp     string
+	grpcMu     sync.Mutex
+	grpcFronts = map[string]string{} // one proxy listener per set of registered schemes + secrets
 )
+
+// grpcFront answers the address of a gRPC proxy (wired as in main.go) which knows exactly the given schemes.
+func grpcFront(registered []string, secrets [][]string) (string, error) {
+	schemes, err := loadSchemes(registered, secrets)
+	if err != nil {
+		return "", err
+	}
+	ns := append([]string(nil), registered...)
+	sort.Strings(ns)
+	key := fmt.Sprintf("%q %q", ns, secrets)
+	grpcMu.Lock()
+	defer grpcMu.Unlock()
+	if a, ok := grpcFronts[key]; ok {
+		return a, nil
+	}
+	if len(grpcFronts) >= 64 {
+		return "", fmt.Errorf("too many distinct scheme sets in one run")
+	}
+	a, err := proxy.VerifC12GRPCProxy(schemes)
+	if err != nil {
+		return "", err
+	}
+	grpcFronts[key] = a
+	return a, nil
+}
 
 func runGRPC(raw json.RawMessage) (interface{}, error) {
 	var in grpcIn
@@ -43,14 +74,28 @@ func runGRPC(raw json.RawMessage) (interface{}, error) {
 			return nil, fmt.Errorf("option value %q cannot be written in a route command", s)
 		}
 	}
-	grpcOnce.Do(func() {
-		if grpcUp, grpcErr = proxy.VerifC12GRPCUpstream(&grpcHits); grpcErr != nil {
-			return
-		}
-		grpcFront, grpcErr = proxy.VerifC12GRPCProxy()
-	})
+	if in.Cred.Mode == "basic" && strings.Contains(in.Cred.User, ":") {
+		return nil, fmt.Errorf("user name with a colon cannot be sent with basic auth")
+	}
+	grpcOnce.Do(func() { grpcUp, grpcErr = proxy.VerifC12GRPCUpstream(&grpcHits) })
 	if grpcErr != nil {
 		return nil, grpcErr
+	}
+	front, err := grpcFront(in.Registered, in.Secrets)
+	if err != nil {
+		return nil, err
+	}
+	// gRPC clients send their credentials in the authorization metadata
+	var md map[string]string
+	h := http.Header{}
+	in.Cred.apply(h)
+	if v := h.Get("Authorization"); v != "" {
+		for _, c := range v {
+			if c < 0x20 || c > 0x7e {
+				return nil, fmt.Errorf("metadata value %q is not printable ASCII", v)
+			}
+		}
+		md = map[string]string{"authorization": v}
 	}
 	opts := []string{"proto=grpc"}
 	if in.Allow != "" {
@@ -70,7 +115,7 @@ func runGRPC(raw json.RawMessage) (interface{}, error) {
 	route.SetTable(tbl)
 	time.Sleep(time.Millisecond)
 	before := grpcHits.Load()
-	code, peer, err := proxy.VerifC12GRPCCall(grpcFront, nil)
+	code, peer, err := proxy.VerifC12GRPCCall(front, md)
 	if err != nil {
 		return nil, err
 	}
@@ -91,14 +136,27 @@ func init() {
 	hx.Register(&hx.Stream{
 		Name: "c12.grpc",
 		Corpus: []interface{}{
-			grpcIn{},
-			grpcIn{Allow: "ip:127.0.0.0/8"},
-			grpcIn{Allow: "ip:10.0.0.0/8"},
-			grpcIn{Deny: "ip:127.0.0.1"},
-			grpcIn{Scheme: "basic"},
+			grpcIn{Secrets: defaultSecrets, Registered: []string{"basic"}},
+			grpcIn{Allow: "ip:127.0.0.0/8", Secrets: defaultSecrets, Registered: []string{"basic"}},
+			grpcIn{Allow: "ip:10.0.0.0/8", Secrets: defaultSecrets, Registered: []string{"basic"}},
+			grpcIn{Deny: "ip:127.0.0.1", Secrets: defaultSecrets, Registered: []string{"basic"}},
+			// D31 (auth half, repaired): a route with auth= was served without credentials
+			grpcIn{Scheme: "basic", Secrets: defaultSecrets, Registered: []string{"basic"}, Cred: credIn{Mode: "none"}},
+			grpcIn{Scheme: "nope", Secrets: defaultSecrets, Registered: []string{"basic"}, Cred: credIn{"basic", "alice", "secret"}},
+			grpcIn{Scheme: "basic", Secrets: defaultSecrets, Registered: []string{}, Cred: credIn{"basic", "alice", "secret"}},
+			grpcIn{Scheme: "basic", Secrets: defaultSecrets, Registered: []string{"basic"}, Cred: credIn{"basic", "alice", "secret"}},
+			grpcIn{Scheme: "basic", Secrets: defaultSecrets, Registered: []string{"basic"}, Cred: credIn{"basic", "alice", "hunter2"}},
+			grpcIn{Scheme: "basic", Secrets: defaultSecrets, Registered: []string{"basic"}, Cred: credIn{Mode: "garbage", User: "Bearer abc"}},
+			grpcIn{Allow: "ip:10.0.0.0/8", Scheme: "basic", Secrets: defaultSecrets, Registered: []string{"basic"}, Cred: credIn{"basic", "alice", "secret"}},
+			grpcIn{Allow: "ip:127.0.0.0/8", Scheme: "basic", Secrets: defaultSecrets, Registered: []string{"basic"}, Cred: credIn{"basic", "bob", "hunter2"}},
 		},
 		Gen: func(r *hx.Rand, i int) interface{} {
-			in := grpcIn{}
+			in := grpcIn{Secrets: defaultSecrets, Registered: []string{}, Cred: credIn{Mode: "none"}}
+			for _, n := range []string{"basic", "admins"} {
+				if r.Chance(2, 3) {
+					in.Registered = append(in.Registered, n)
+				}
+			}
 			// option values of a route command cannot hold blanks: items are joined without spaces
 			rule := func(bad bool) string {
 				n := 1 + r.Intn(3)
@@ -123,8 +181,11 @@ func init() {
 			default:
 				in.Deny = rule(false)
 			}
-			if r.Chance(1, 4) {
-				in.Scheme = r.Pick([]string{"basic", "nope"})
+			if r.Chance(3, 5) {
+				in.Scheme = r.Pick([]string{"basic", "basic", "admins", "nope", "Basic"})
+				in.Cred = genCred(r)
+			} else if r.Chance(1, 3) {
+				in.Cred = genCred(r) // credentials on a route that asks for none
 			}
 			return in
 		},
